@@ -85,33 +85,8 @@ theorem resend_measure (c : Cfg) (σ : Comp) (e : CEv) (hl : legalB c σ e = tru
       refine ⟨Nat.le_refl _, fun hh => ?_⟩
       rw [hnot o ho ht] at hh; cases hh
 
-theorem fold_resendMu (c : Cfg) (hcap : 0 < c.cu.capCP) : ∀ (es : List CEv) (σ : Comp), Lite σ.cu →
-    legalRunB c σ es = true →
-    (∃ k, k ≤ es.length ∧ (((es.take k).foldl (cstep c) σ).cu.isSending = false ∨
-        ((es.take k).foldl (cstep c) σ).cu.cpIn ≠ [])) ∨
-    resendMu (es.foldl (cstep c) σ).cu + helpfulCountS c σ es ≤ resendMu σ.cu := by
-  intro es
-  induction es with
-  | nil => intro σ _ _; right; simp [helpfulCountS]
-  | cons e es ih =>
-    intro σ hL hl
-    simp only [legalRunB, Bool.and_eq_true] at hl
-    by_cases h0 : σ.cu.isSending = true ∧ σ.cu.cpIn = []
-    · have hL' := cstep_Lite c hcap σ e hl.1 hL
-      rcases ih (cstep c σ e) hL' hl.2 with ⟨k, hk, hz⟩ | hle
-      · left; exact ⟨k + 1, by simp; omega, by simpa using hz⟩
-      · right
-        obtain ⟨m1, m2⟩ := resend_measure c σ e hl.1 hL h0.1 h0.2
-        simp only [List.foldl_cons, helpfulCountS]
-        by_cases hh : helpfulS c σ e = true
-        · have := m2 hh; simp only [hh, if_true]; omega
-        · simp only [hh, Bool.false_eq_true, if_false]; omega
-    · left
-      refine ⟨0, Nat.zero_le _, ?_⟩
-      simp only [List.take_zero, List.foldl_nil]
-      by_cases hs : σ.cu.isSending = true
-      · right; intro hin; exact h0 ⟨hs, hin⟩
-      · left; simpa using hs
+example : helpfulS demoCfg (crun demoCfg (roundEvs.take 16)) (.cu .tick) = true ∧
+    resendMu (crun demoCfg (roundEvs.take 16)).cu = 1 ∧ resendMu (crun demoCfg (roundEvs.take 17)).cu = 0 := by decide
 
 /-- **The re-send ends — bounded liveness of the second stage over every legal schedule.** From any
     reachable state, along any legal continuation: either at some point the compute unit is no
@@ -134,7 +109,34 @@ theorem resend_completes_within (c : Cfg) (hcap : 0 < c.cu.capCP) (evs0 evs : Li
   have hL : Lite σ.cu := crun_Lite c hcap evs0 hl0
   have hrun : ∀ l : List CEv, crun c (evs0 ++ l) = l.foldl (cstep c) σ := by
     intro l; simp [σ, crun, List.foldl_append]
-  have key := fold_resendMu c hcap evs σ hL hl1
+  have fold : ∀ (es : List CEv) (σ : Comp), Lite σ.cu →
+      legalRunB c σ es = true →
+      (∃ k, k ≤ es.length ∧ (((es.take k).foldl (cstep c) σ).cu.isSending = false ∨
+          ((es.take k).foldl (cstep c) σ).cu.cpIn ≠ [])) ∨
+      resendMu (es.foldl (cstep c) σ).cu + helpfulCountS c σ es ≤ resendMu σ.cu := by
+    intro es
+    induction es with
+    | nil => intro σ _ _; right; simp [helpfulCountS]
+    | cons e es ih =>
+      intro σ hL hl
+      simp only [legalRunB, Bool.and_eq_true] at hl
+      by_cases h0 : σ.cu.isSending = true ∧ σ.cu.cpIn = []
+      · have hL' := cstep_Lite c hcap σ e hl.1 hL
+        rcases ih (cstep c σ e) hL' hl.2 with ⟨k, hk, hz⟩ | hle
+        · left; exact ⟨k + 1, by simp; omega, by simpa using hz⟩
+        · right
+          obtain ⟨m1, m2⟩ := resend_measure c σ e hl.1 hL h0.1 h0.2
+          simp only [List.foldl_cons, helpfulCountS]
+          by_cases hh : helpfulS c σ e = true
+          · have := m2 hh; simp only [hh, if_true]; omega
+          · simp only [hh, Bool.false_eq_true, if_false]; omega
+      · left
+        refine ⟨0, Nat.zero_le _, ?_⟩
+        simp only [List.take_zero, List.foldl_nil]
+        by_cases hs : σ.cu.isSending = true
+        · right; intro hin; exact h0 ⟨hs, hin⟩
+        · left; simpa using hs
+  have key := fold evs σ hL hl1
   constructor
   · rcases key with ⟨k, hk, hz⟩ | hle
     · left; exact ⟨k, hk, by rw [hrun]; exact hz⟩
@@ -175,12 +177,6 @@ requests the connection has moved into the restarted ROB — in particular of th
 the helpful events counted on the projected schedule (ROB ticks, the memory, `back` as the requester
 taking a response). -/
 
-theorem robEvs_append (c : Cfg) (a b : List CEv) (σ : Comp) :
-    robEvs c σ (a ++ b) = robEvs c σ a ++ robEvs c (a.foldl (cstep c) σ) b := by
-  induction a generalizing σ with
-  | nil => rfl
-  | cons e es ih => simp [robEvs, ih, List.append_assoc]
-
 /-- **A request waiting in the Top port of the ROB of the composition is accepted within `muIn`
     helpful events of the projected schedule** (`accepted_within_measure` through the projection):
     for the request number `a` the ROB gave a (re-)sent request of the compute unit, inside the
@@ -204,6 +200,10 @@ theorem resent_request_accepted_in_composition (c : Cfg) (evs0 evs : List CEv) (
   simp only at key
   rw [← h0, ← h1] at key
   exact key
+
+example : helpfulInCount demoCfg.rob (crun demoCfg (roundEvs ++ [.xfer])).sys
+      (robEvs demoCfg (crun demoCfg (roundEvs ++ [.xfer])) [.rob .tick]) = 1 ∧
+    1 ∈ (crun demoCfg (roundEvs ++ [.xfer, .rob .tick])).sys.rob.accepted := by decide
 
 /-- **… and once accepted it is answered (its response enters the Top port) within `mu − 1` helpful
     events** (`answered_within_measure` through the projection). -/
